@@ -838,9 +838,9 @@ class API:
                         "Method is not a unary method."
                     ]
                     continue
-                top_level_request_message = self.messages[
-                    method_descriptor.input_type.lstrip(".")
-                ]
+                # The request message may be declared in a file that is not
+                # generated (a shared request type): take it from the method.
+                top_level_request_message = method_descriptor.input
                 selector_errors = []
                 for field_str in method_settings.auto_populated_fields:
                     if field_str not in top_level_request_message.fields:
